@@ -6042,7 +6042,7 @@ class FlowIRConcrete(object):
 
     def invalidate_cache_for_component(self, comp_id):
         self._cache.invalidate_reg_expression(r'component:.*:stage%s:%s' % (
-            comp_id[0], comp_id[1]))
+            comp_id[0], re.escape(str(comp_id[1]))))
 
     def update_component(self, comp_id, new_flowir):
         # type: (FlowIRComponentId, DictFlowIRComponent) -> None
@@ -6072,7 +6072,7 @@ class FlowIRConcrete(object):
         if return_copy:
             return deep_copy(component)
 
-        self._cache.invalidate_reg_expression(r"component:.*:stage%s:%s" % (comp_id[0], comp_id[1]))
+        self._cache.invalidate_reg_expression(r"component:.*:stage%s:%s" % (comp_id[0], re.escape(str(comp_id[1]))))
         return component
 
     def delete_component(self, comp_id, ignore_errors=False):
@@ -6098,7 +6098,7 @@ class FlowIRConcrete(object):
                 pass
 
             self._cache.invalidate_reg_expression(r'component:.*:stage%s:%s' % (
-                comp['stage'], comp['name']
+                comp['stage'], re.escape(str(comp['name']))
             ))
         except:
             if ignore_errors is False:
